@@ -120,7 +120,7 @@ func c09Damages(p *lib.Pair) []lib.Damage {
 		size := int64(len(e.Data))
 		for _, d := range lib.FileDamages(e.Path, size) {
 			switch d.Op {
-			case "todir", "tononemptydir", "tosymlink":
+			case "todir", "tononemptydir", "tosymlink", "tofifo":
 				continue
 			}
 			out = append(out, d)
